@@ -85,7 +85,8 @@ def main():
             else:
                 meta = os.path.join(os.path.dirname(p), "meta.json")
                 import json
-                props = [json.load(open(meta))["property"]] if os.path.exists(meta) else []
+                md = json.load(open(meta)) if os.path.exists(meta) else {}
+                props = md.get("checked_by") or ([md["property"]] if md else [])
         jobs.append((p, [x.strip() for x in props]))
     ok = True
     record = "--record" in sys.argv
